@@ -4,8 +4,10 @@ import os
 import re
 import shutil
 import vlib
+from checks import _translator
 
-THEOREMS = {"Properties.C11": ["C11_index_consistent", "C11_filter_exact", "C11_filter_exact_ordered", "C11_batch_delete_exact",
+THEOREMS = {"Properties.C11gen": ["C11_generated_okey_matches_model", "C11_generated_okey_order", "C11gen_nonvacuous"],
+            "Properties.C11": ["C11_index_consistent", "C11_filter_exact", "C11_filter_exact_ordered", "C11_batch_delete_exact",
                                "C11_okey_order", "C11_nonvacuous"]}
 PINS = {"Properties.C11": {
     "_preamble": "From Coq Require Import List NArith ZArith Bool. From Kyro Require Import Model.Filter Proofs.FilterLemmas Proofs.FilterProofs. Import ListNotations.",
@@ -14,6 +16,10 @@ PINS = {"Properties.C11": {
     "C11_filter_exact_ordered": "forall (parse : str -> option Z) (s : state) (f : mfilter), reachable parse s -> ids_for_filter parse s f = map fst (filter (fun dm => matches parse f (snd dm)) (live_docs (slots s)))",
     "C11_batch_delete_exact": "forall (parse : str -> option Z) (s : state) (f : mfilter), reachable parse s -> forall d m, In (d, m) (live_docs (slots (fst (step parse s (OBatchDeleteFilter f))))) <-> In (d, m) (live_docs (slots s)) /\\ matches parse f m = false",
     "C11_okey_order": "forall a b : Z, (0 <= a < two64)%Z -> (0 <= b < two64)%Z -> f64_is_nan a = false -> f64_is_nan b = false -> (okey a <=? okey b)%Z = f64_le a b /\\ (okey a <? okey b)%Z = f64_lt a b /\\ ((okey a =? okey b)%Z = f64_eq a b)",
+},
+    "Properties.C11gen": {
+    "_preamble": "From Coq Require Import ZArith Bool. From Kyro Require Import Model.Filter gen.OrderedF64_gen Proofs.FilterLemmas Proofs.OrderedF64GenProofs. Open Scope Z_scope.",
+    "C11_generated_okey_matches_model": "forall v : Z, 0 <= v < two64 -> OrderedF64_gen.from_f64 v = Filter.okey v",
 }}
 
 TRUSTED = [
@@ -47,7 +53,15 @@ def run(ctx):
     n = 12 if quick else 72
     per_state = 200 if quick else 0          # 0 = every Rust-side pair is also evaluated in Coq
     ctx.trusted += TRUSTED
-    proofs_ok = ctx.proof_phase(["Properties/C11.vo"], THEOREMS, pins=PINS)
+    ctx.trusted.append("harness/p/translator target ordered_f64 (syn parser + typed Rust-subset -> Gallina translator, fails closed): OrderedF64::from_f64 on bit patterns in Z (`==` on floats is Filter.f64_eq, float literals become their exact bits, `!x` is Z.lnot x mod 2^64, `1u64 << 63` carries mod 2^64); the derived Ord of the tuple struct is the integer order (the translator checks the derive)")
+    # regenerate coq/gen/OrderedF64_gen.v from hnsw_backend.rs (fails closed); Properties/C11gen.v proves it equal to Filter.okey
+    gen = _translator.regen(ctx, "ordered_f64", "OrderedF64_gen", also_build=["c11"])
+    proofs_ok = ctx.proof_phase(["Properties/C11.vo", "Properties/C11gen.vo"], THEOREMS, pins=PINS)
+    gen_broken = []
+    if gen["broken"]:
+        gen_broken.append(gen["broken"])
+    elif _translator.stale_vo("OrderedF64_gen"):
+        gen_broken.append({"kind": "generated-model-did-not-compile", "file": "coq/gen/OrderedF64_gen.v"})
 
     ok, log = vlib.cargo_build(["c11"])
     ctx.log("cargo.log", log)
@@ -105,7 +119,7 @@ def run(ctx):
                        "more_failures": len(summ["oracle_failures"]) - 1,
                        "replay_cmd": "./check C11 --replay <this file>"})
         return
-    broken = []
+    broken = list(gen_broken)
     if not proofs_ok:
         broken.append({"kind": "proof-obligations", "failed": ctx.failed_obligations})
     if coq_err:
